@@ -390,6 +390,69 @@ def run(ctx):
                              where, "proxy" if use_proxy else "origin")
         finally:
             proxy.close()
+        # ---- documents are fetched (open) the way messages are sent: through the proxy currently configured - also when
+        # it was set after the transport was made and nothing was sent yet -, with the credentials a challenge asks for
+        proxy2 = Server()
+        try:
+            for when in ("constructor", "after-construction", "changed-twice"):
+                proxy2.httpd.plan = srv.httpd.plan = lambda h: {"status": 200, "body": b"<doc/>"}
+                pv = {"http": "127.0.0.1:%d" % proxy2.port}
+                if when == "constructor":
+                    t = suds.transport.http.HttpTransport(proxy=pv)
+                else:
+                    t = suds.transport.http.HttpTransport()
+                    t.options.proxy = pv
+                del srv.httpd.seen[:]
+                del proxy2.httpd.seen[:]
+                ctx.case(("open-through-proxy", when), True)
+                try:
+                    got = [t.open(suds.transport.Request(srv.url("/a.wsdl"))).read()]
+                    if when == "changed-twice":
+                        t.options.proxy = {}
+                        got.append(t.open(suds.transport.Request(srv.url("/b.xsd"))).read())
+                    where = [len(proxy2.httpd.seen), len(srv.httpd.seen)]
+                except Exception as e:
+                    got, where = repr(e), None
+                want_where = [1, 1] if when == "changed-twice" else [1, 0]
+                if where != want_where:
+                    ctx.fail("the request did not go where the proxy option says", {"method": "open", "proxy_set": when},
+                             [got, where], want_where)
+        finally:
+            proxy2.close()
+        for first in ("open", "send"):
+            t = suds.transport.https.HttpAuthenticated(username="doc-user", password="doc-pw")
+            srv.httpd.plan = challenge
+            del srv.httpd.seen[:]
+            ctx.case(("challenge-on-open", first), True)
+            try:
+                if first == "send":
+                    t.send(suds.transport.Request(srv.url("/svc"), b"<m/>"))
+                body_ = t.open(suds.transport.Request(srv.url("/protected.wsdl"))).read()
+                auth = hdr(srv.httpd.seen[-1], "Authorization")
+                got = [body_, [base64.b64decode(a_[6:]).decode() if a_.startswith("Basic ") else a_ for a_ in auth]]
+            except Exception as e:
+                got = repr(e)
+            if got != [b"<ok/>", ["doc-user:doc-pw"]]:
+                ctx.fail("server does not recover the configured username and password after its challenge",
+                         {"method": "open", "first_use": first}, got, [b"<ok/>", ["doc-user:doc-pw"]])
+        # a server that offers several schemes (Negotiate first, then Basic): the Basic challenge is the one answered
+        def multi(h):
+            if h.headers.get("Authorization", "").startswith("Basic "):
+                return {"status": 200, "body": b"<ok/>"}
+            return {"status": 401, "body": b"<denied/>", "headers": [("WWW-Authenticate", "Negotiate"),
+                                                                     ("WWW-Authenticate", 'Basic realm="r"')]}
+        t = suds.transport.https.HttpAuthenticated(username="u", password="p")
+        srv.httpd.plan = multi
+        del srv.httpd.seen[:]
+        ctx.case(("challenge-several-schemes",), True)
+        try:
+            r = t.send(suds.transport.Request(srv.url("/svc"), b"<m/>"))
+            got = [r.message, hdr(srv.httpd.seen[-1], "Authorization")]
+        except Exception as e:
+            got = repr(e)
+        if got != [b"<ok/>", ["Basic " + base64.b64encode(b"u:p").decode()]]:
+            ctx.fail("server does not recover the configured username and password after its challenge",
+                     {"challenge": ["Negotiate", 'Basic realm="r"']}, got, [b"<ok/>", ["Basic dTpw"]])
         # ---- statuses
         reqs, reals = [], []
         import logging
